@@ -36,7 +36,7 @@ RULE = (
     "or added out of all valid features (d per tier and family, see bounds); every operation mode x "
     "every value of its optional requirement (3 optimality values, 3 anytime values, 8 plan kinds, 20 "
     "compilation kinds, plan kind x optimality for repairers); preference lists: default, reversed, every "
-    "singleton; compilation pipelines: all ordered pairs (and triples on the base kinds of the stubs) of "
+    "singleton; compilation pipelines: all ordered pairs (and triples on the base kinds of the stubs [thorough] and on 5 small feature-adding kinds PIPE3_BASES [both tiers]) of "
     "the compilation kinds some registered compiler supports. One evaluation = one factory call compared "
     "with a brute-force scan of the registry; non-trivial = at least one engine of the requested mode "
     "supports the kind (so the requirement, the preference order or the kind decides)"
@@ -385,6 +385,19 @@ def own_requests(w, name, representative_unsupported=True):
     return out
 
 
+# small kinds on which some real compiler ADDS features (object fluents -> conditional effects /
+# existential conditions / equalities, quantifiers -> disjunctions, ...): three-stage pipelines over
+# ALL triples of compilation kinds, so that a later stage is selected for a kind that differs from
+# the original one by additions and removals of earlier stages
+PIPE3_BASES = [
+    ("p3:object-fluents+time", {"ACTION_BASED", "FLAT_TYPING", "OBJECT_FLUENTS", "CONTINUOUS_TIME"}),
+    ("p3:object-fluents", {"ACTION_BASED", "FLAT_TYPING", "OBJECT_FLUENTS"}),
+    ("p3:quantifiers+time", {"ACTION_BASED", "FLAT_TYPING", "UNIVERSAL_CONDITIONS", "EXISTENTIAL_CONDITIONS", "CONTINUOUS_TIME"}),
+    ("p3:negative+disjunctive+time", {"ACTION_BASED", "FLAT_TYPING", "NEGATIVE_CONDITIONS", "DISJUNCTIVE_CONDITIONS", "CONTINUOUS_TIME"}),
+    ("p3:invariants+bounded", {"ACTION_BASED", "HIERARCHICAL_TYPING", "STATE_INVARIANTS", "BOUNDED_TYPES", "INT_FLUENTS"}),
+]
+
+
 def shards(tier, seed):
     w = world()
     t = _tier(tier)
@@ -397,6 +410,8 @@ def shards(tier, seed):
         k = 2 if len(fs) <= SMALL else 6
         for part in range(k):
             out.append({"level": 1, "what": "dev", "base": bi, "d": 1, "part": part, "nparts": k})
+    for i in range(len(PIPE3_BASES)):
+        out.append({"level": 1, "what": "pipe3", "base": 0, "pipe3": i})
     if t["d2_bases"]:
         for bi, (lab, fs) in enumerate(bks):
             if lab == "empty" or lab.startswith("mc_"):
@@ -428,6 +443,17 @@ def run_shard(shard, tier, seed):
                 for req in own_requests(w, n):
                     judge(acc, w, "only:" + n, [n], req, lab, (), (), base, 0)
             acc.sample({"base": lab, "features": sorted(base)}, limit=1)
+        elif shard["what"] == "pipe3":
+            lab3, feats3 = PIPE3_BASES[shard["pipe3"]]
+            cks = compiler_kinds(w)
+            kind = mk_kind(feats3)
+            w.f.preference_list = list(default)
+            for c1 in cks:
+                first = w.scan(default, (OM.COMPILER, None, None, None, c1), kind)
+                for c2 in cks if first is not None else cks[:1]:
+                    for c3 in cks if first is not None else cks[:1]:
+                        judge_pipeline(acc, w, "default", default, (c1, c2, c3), lab3, feats3, 1)
+            acc.sample({"base": lab3, "features": sorted(feats3)}, limit=1)
         elif shard["what"] == "pipe":
             cks = compiler_kinds(w)
             kind = mk_kind(base)
